@@ -107,6 +107,7 @@ func runC08(r *fw.Run, p *fw.Program) {
 	c.ruleStrNum()
 	c.ruleNullSem()
 	c.ruleErrs()
+	c.ruleByName()
 	c.rulePure()
 	c.ruleToValue()
 	c.ruleJQ()
